@@ -30,7 +30,7 @@ def c01(ctx):
     ctx.rule = ("cases = every expression of the bounded core universe (Families.tla, family C01: leaves x 14 "
                 "schemas, two levels) x every document of DocsCore, each in 3 spellings; a case is non-trivial when "
                 "its allowed set is not {ok null} and the expression has >= 2 nodes; distinct by (source text, document)")
-    eval_family(ctx, "C01", {Q: (12, 4001), T: (1, 211)})
+    eval_family(ctx, "C01", {Q: (12, 8009), T: (1, 211)})
     C.trace_api(ctx, {"outcome", "compile-rejected"}, n=600 if ctx.tier == Q else 6000)
     ctx.exhaustive = False
 
@@ -238,9 +238,9 @@ def c12(ctx):
         with open(runf, "w") as f:
             for w in ws:
                 ss = sorted(scheds.get(tuple(w["n"]), []))
-                if quick and len(ss) > 400:
+                if quick and len(ss) > 250:
                     import random
-                    ss = random.Random(ctx.seed + w["p"] * 31 + w["q"]).sample(ss, 400)
+                    ss = random.Random(ctx.seed + w["p"] * 31 + w["q"]).sample(ss, 250)
                 w["scheds"] = [list(x) for x in ss]
                 nsch += len(ss)
                 f.write(json.dumps(w) + "\n")
@@ -258,7 +258,7 @@ def c15(ctx):
                 "arguments, left sides of pipe / sub-expression / index / the projection kinds) and their depth-2 compositions: Search(C[A], d) "
                 "vs Search(C[`v`], d) with v the value of A; both sides real, each also checked against the specification's outcome set; "
                 "non-trivial: the allowed set is not {ok null} on some document; distinct by source text")
-    strides = {Q: (1, 37), T: (1, 3)}[ctx.tier]
+    strides = {Q: (1, 61), T: (1, 3)}[ctx.tier]
     c = {"Dev": "{}", "Tier": ctx.tier, "Family": "C15", "NBlocks": 64, "Stride": strides[0], "Stride3": strides[1], "Seed": ctx.seed}
     C.model_check(ctx, "MC_Eval", c, invariants=["Holds"], spec="Spec", name="MC_Eval_C15", extra_cfg=["VIEW View"], workers=C.NCPU, timeout=3000)
     files = C.generate(ctx, "Gen_Meta", "C15", {"Stride3": strides[1]}, 8 if ctx.tier == Q else 16, stride=strides[0], timeout=3000)
